@@ -3,6 +3,7 @@ import LyModel.Valid.SpecDefaults
 import LyModel.Valid.LemmasImplicit
 import LyModel.Valid.LemmasLoop
 import LyModel.Valid.WellFormed
+import LyModel.Valid.LemmasNpCont
 /-!
 # C07 — validation is an idempotent normalisation whose reported changes are exact
 
@@ -240,6 +241,29 @@ example :
     (shouldPrint S (POpts.ofNat WdMode.trim.bits) n, shouldPrint S (POpts.ofNat WdMode.explicit.bits) n,
       tagged S (POpts.ofNat WdMode.reportAllTagged.bits) n) = (false, true, true) := by decide
 
+/-! ## the default flag of non-presence containers -/
+
+/-- **`np_cont_dflt`**: the invariant "every non-presence container carries `LYD_DEFAULT` iff all its children do" (`npInvL`; an
+empty one is default) holds for every tree the builders make (`freshL`: `lyd_new_*`), and the edits of a history keep it, for
+every schema, address and subtree: creating nodes below an existing node (`applyCreate`: insertion plus the
+`while (parent && (parent->flags & LYD_DEFAULT))` loop of `lyd_np_cont_dflt_del`) and removing a node (`applyDelete`: unlink plus
+the loop of `lyd_np_cont_dflt_set`, which stops at the first parent it does not change).  The early exits of both loops are
+sound only because of the invariant itself: that is the content of the proof. -/
+theorem np_cont_dflt (S : Schema) :
+    (∀ t, npInvL S (freshL S t)) ∧
+    (∀ under sub t t', npInvL S t → applyCreate S under sub t = some t' → npInvL S t') ∧
+    (∀ addr t t', npInvL S t → applyDelete S addr t = some t' → npInvL S t') :=
+  ⟨npInvL_fresh S, fun under sub t t' => np_cont_dflt_create S under sub t t',
+    fun addr t t' => np_cont_dflt_delete S addr t t'⟩
+
+/-- non-vacuity (schema `Sx`: `c` and `c/n` are non-presence containers): an explicit leaf created in the default `c/n` clears
+the flag of `n` and of `c`; removing it again sets both -/
+example :
+    let t0 : List DNode := [.inner 0 { dflt := true } [] [.inner 3 { dflt := true } [] []]]
+    let t1 : List DNode := [.inner 0 {} [] [.inner 3 {} [] [.term 4 { new := true } [] [121]]]]
+    ((applyCreate Sx [.plain 0, .plain 3] [.term 4 {} [] [121]] t0).map (beqL t1) = some true) ∧
+    ((applyDelete Sx [.plain 0, .plain 3, .plain 4] t1).map (beqL t0) = some true) := by decide
+
 /-! ## not proved
 
 -- OPEN: `validate_idempotent` for schemas with `choice` / `case` (the defective variants F65 / F66 violate it: a second
@@ -248,8 +272,8 @@ example :
 -- OPEN: `valdiff_exact` (applying the returned diff to the input gives the output; the diff is empty iff nothing changed).
 -- The model composes `Valid.ValDiff.valDiff` with the `diff` component's `apply`; laws `valdiff-apply` / `valdiff-eq`
 -- evaluate it on the implementation; findings F62, F63, F64 are its counterexamples in the code.
--- OPEN: `np_cont_dflt` (a non-presence container carries `LYD_DEFAULT` iff all its children do) as an invariant of every
--- history; `freshNode` / `npSet` model it, law `dflt-flag` checks it after every step.
+-- OPEN: `np_cont_dflt` for the validation step itself (`validate` keeps `npInvL`: it removes and creates default nodes only,
+-- `npSet` in `lyd_validate_final_r`); law `dflt-flag` checks the flags after every step of every history.
 -- OPEN: `implicit_exact` through choices (default case chosen iff no case has data): `dflt_flag_sound` gives soundness
 -- for all schemas, exactness is proved for the choice-free level (`implicit_exact`); law `implicit` against `rfcdefaults`.
 -/
